@@ -112,5 +112,11 @@ Definition check_route (ts : list N) : list N :=
 Definition check_C15 (ts : list N) : list N :=
   match ts with
   | 1 :: r => check_route r
+  (* end-to-end rig (real binary): [40; got; rcode] -- a query for a name under a forge-nxdomain
+     suffix ("x.invalid"), with a catch-all forward route also configured *)
+  | [40; got; rcode] =>
+    if got =? 0 then v_diff [1]
+    else if negb (rcode =? 3) then v_viol 40
+    else v_ok 40
   | _ => v_bad
   end.
